@@ -34,7 +34,7 @@ class Engine(Interp, ExprMixin, StmtMixin, CallMixin, MethodMixin):
         self.iter_info = {}
         self.scoped = []
         self.pure_modules = {'builtins', 'operator', 're', 'os', 'posixpath', 'typing', 'itertools', 'functools', 'collections', 'enum', 'string'}
-        self.effect_modules = {'mesonbuild.mlog'}
+        self.effect_modules = {'mesonbuild.mlog', 'mesonbuild.interpreterbase.decorators'}
         self.init_specials()
 
     # ------------------------------------------------------------------ names in contract text
